@@ -290,11 +290,25 @@ def h_vec_insert(ex, st, frame, t, nf, args, dty):
     return [s_ok, (("panic", "Vec::insert index > len"), z3.Not(inb))]
 
 
+def _conc(t):
+    t = z3.simplify(t)
+    return t.as_long() if z3.is_bv_value(t) else None
+
+
 def h_vec_push(ex, st, frame, t, nf, args, dty):
     r = vec_ref(ex, st, args[0])
     v = as_vec(ex, st, r)
     x = args[1]
     n = v.len.t
+    cn = _conc(n)
+    if cn is not None:
+        if cn >= v.cap:
+            raise Unsupported("Vec::push exceeds the modelled capacity %d" % v.cap)
+        new = list(v.elems)
+        new[cn] = x
+        nv = VecV(v.elem_ty, v.cap, Sym(BV64(cn + 1), "usize"), new)
+        ex.write_path(st, r.cell, r.proj, nv)
+        return [(UNIT, None)]
     room = z3.ULT(n, BV64(v.cap))
     if ex.feasible(st, z3.Not(room)):
         raise Unsupported("Vec::push may exceed the modelled capacity %d" % v.cap)
@@ -319,6 +333,11 @@ def h_vec_last(ex, st, frame, t, nf, args, dty):
     r = vec_ref(ex, st, args[0])
     v = as_vec(ex, st, r)
     n = v.len.t
+    cn = _conc(n)
+    if cn is not None:
+        if cn == 0:
+            return [(none(dty), None)]
+        return [(some(Ref(r.cell, tuple(r.proj) + (("index", BV64(cn - 1)),), False, "&" + v.elem_ty), dty), None)]
     empty = n == BV64(0)
     ref = Ref(r.cell, tuple(r.proj) + (("index", n - 1),), False, "&" + v.elem_ty)
     return [(none(dty), empty), (some(ref, dty), z3.Not(empty))]
@@ -1001,6 +1020,17 @@ def h_vec_pop(ex, st, frame, t, nf, args, dty):
     r = vec_ref(ex, st, args[0])
     v = as_vec(ex, st, r)
     n = v.len.t
+    cn = _conc(n)
+    if cn is not None:
+        if cn == 0:
+            return [(none(dty), None)]
+        item = elem_at(ex, st, v, cn - 1)
+        new = list(v.elems)
+        new[cn - 1] = None
+        nv = VecV(v.elem_ty, v.cap, Sym(BV64(cn - 1), "usize"), new)
+        nv.oid = v.oid + 0
+        ex.write_path(st, r.cell, r.proj, nv)
+        return [(some(item, dty), None)]
     empty = n == BV64(0)
     item = None
     for k in range(v.cap - 1, -1, -1):
@@ -1056,7 +1086,57 @@ def h_mem_drop(ex, st, frame, t, nf, args, dty):
     return [(UNIT, None)]
 
 
+def val_eq(ex, st, a, b, depth=0):
+    """structural equality of two values as a z3 Bool (derived PartialEq on enums / structs of scalars)"""
+    if depth > 5:
+        raise Unsupported("equality too deep")
+    a = deref_val(ex, st, a)
+    b = deref_val(ex, st, b)
+    if isinstance(a, Sym) and isinstance(b, Sym):
+        return a.t == b.t
+    if isinstance(a, Unit) and isinstance(b, Unit):
+        return z3.BoolVal(True)
+    if isinstance(a, Obj) and isinstance(b, Obj):
+        cs = []
+        bt = base_type(a.ty).split("::")[-1]
+        is_enum = bt in ex.enums or a.discr is not None or b.discr is not None
+        if is_enum:
+            da, db = ex.get_discr(st, a).t, ex.get_discr(st, b).t
+            cs.append(da == db)
+            table = ex.enums.get(bt, {})
+            for (var, idx) in set(a.fields) | set(b.fields):
+                if var is None or var == "g":
+                    continue
+                if var not in table:
+                    raise Unsupported("equality: unknown variant %s of %s" % (var, bt))
+                ty = "?"
+                fa = ex._get_field(st, a, var, idx, ty) if (var, idx) in a.fields or True else None
+                fb = ex._get_field(st, b, var, idx, ty)
+                cs.append(z3.Implies(da == BV64(table[var]), val_eq(ex, st, fa, fb, depth + 1)))
+            return z3.And(cs)
+        keys = set(k for k in a.fields if k[0] is None) | set(k for k in b.fields if k[0] is None)
+        for k in keys:
+            cs.append(val_eq(ex, st, ex._get_field(st, a, None, k[1], "?"), ex._get_field(st, b, None, k[1], "?"), depth + 1))
+        return z3.And(cs) if cs else z3.BoolVal(True)
+    if isinstance(a, FnItem) and isinstance(b, FnItem):
+        return z3.BoolVal(True)
+    raise Unsupported("equality of %r and %r" % (a, b))
+
+
+def h_partial_eq(ex, st, frame, t, nf, args, dty):
+    e = val_eq(ex, st, args[0], args[1])
+    if nf.endswith("::ne"):
+        e = z3.Not(e)
+    return [(Sym(e, "bool"), None)]
+
+
+def h_panic(ex, st, frame, t, nf, args, dty):
+    return "panic"
+
+
 STD_SUMMARIES = [
+    (r"^<(std::option::)?Option as PartialEq>::(eq|ne)$", h_partial_eq),
+    (r"(^|::)(panic_fmt|panic|panic_display|panic_str|unwrap_failed|expect_failed|begin_panic|panic_bounds_check|panic_nounwind|panic_explicit|unreachable_display|assert_failed)$", h_panic),
     (r"^(std::option::)?Option::(as_ref|as_mut)$", h_option_as_ref),
     (r"^(std::option::)?Option::take$", h_option_take),
     (r"^(std::option::)?Option::replace$", h_option_replace),
